@@ -128,6 +128,15 @@ impl FromStr for Fen {
         #[allow(clippy::unwrap_used)]
         Self::validate_ranks(group_to_slice(1).map(|range| &fen[range.start..range.end]).unwrap())?;
 
+        // the clocks are read as u32 later on: refuse what does not fit (or is not made of ASCII digits) here
+        for clock_group in [5, 6] {
+            if let Some(range) = group_to_slice(clock_group) {
+                if fen[range.start..range.end].parse::<u32>().is_err() {
+                    return Err(InvalidCapture(fen.clone()));
+                }
+            }
+        }
+
         Ok(
             #[allow(clippy::unwrap_used)]
             Self {
